@@ -373,6 +373,7 @@ func c15Run(t *tr.Writer, id int, c c15Case) {
 	if c.Side == "service" {
 		outer, inner = "io", "invoke"
 	}
+	Watch(id, tr.Rec{"side": c.Side}, c)
 	t.Reset(id, tr.Rec{"outer": outer, "inner": inner, "beh": c.Beh, "side": c.Side, "conc": c.Conc, "input": c})
 	side := c15NewSide(c.Side)
 	if c.Conc > 0 {
